@@ -195,7 +195,7 @@ var properties = map[string]*propSpec{
 		},
 		Assumptions: assume("relational oracle: the two modes are compared with each other (what is selected is C01's business)"),
 		Floors: []floor{
-			{Check: "TestC12_Parity", Class: "nontrivial", Min: 0.15},
+			{Check: "TestC12_Parity", Class: "nontrivial", Min: 0.11},
 			{Check: "TestC12_Parity", Class: "function-after-group-step", Min: 0.05},
 		},
 	},
